@@ -23,12 +23,12 @@ theorem asName_of_fromText (w : List Nat) (zo n : Name) (h : fromText w (some zo
   · simp [hz, derelativize_abs n zo habs]
 
 /-- one index of the `$GENERATE` loop -/
-theorem genItem_record (r : PState) (nameT rdT : List Nat) (zo n m : Name) (ttl ty : Nat) (rd : Rdata)
+theorem genItem_record (r : PState) (nameT rdT : List Nat) (co zo n m : Name) (ttl ty : Nat) (rd : Rdata)
     (comment : Option (List Nat)) (s' : TState)
-    (hco : r.currentOrigin = some zo) (hzo : r.zoneOrigin = some zo)
-    (hname : fromText nameT (some zo) = .ok n) (hin : isSubdomain n zo = true)
+    (hco : r.currentOrigin = some co) (hzo : r.zoneOrigin = some zo)
+    (hname : fromText nameT (some co) = .ok n) (hin : isSubdomain n zo = true)
     (hm : ownerInZone r.relativize n zo = .ok m)
-    (hfresh : rdataFromText ty (TState.init rdT) (some zo) r.relativize (some zo) r.gfix = .ok (rd, comment, s')) :
+    (hfresh : rdataFromText ty (TState.init rdT) (some co) r.relativize (some zo) r.gfix = .ok (rd, comment, s')) :
     genItem ttl ty (nameT, rdT) r = .ok (some ⟨m, ttl, ty, ⟨rd, comment⟩⟩, { r with lastName := some n }) := by
   unfold genItem
   simp only [hco, hname, hzo, hin, Bool.not_true, Bool.false_eq_true, if_false]
@@ -55,22 +55,22 @@ def evEntry : LineEv → Option Entry
   | _ => none
 
 /-- **one `$GENERATE` index = the explicit record line of its expansion**: same record handed to `txn.add` -/
-theorem generate_item_eq_line (r : PState) (nameT ttlT clsT tyT rdT rest : List Nat) (zo n m : Name) (ttl ty : Nat)
+theorem generate_item_eq_line (r : PState) (nameT ttlT clsT tyT rdT rest : List Nat) (co zo n m : Name) (ttl ty : Nat)
     (rd : Rdata) (comment : Option (List Nat)) (s' : TState)
-    (hco : r.currentOrigin = some zo) (hzo : r.zoneOrigin = some zo)
-    (hname : fromText nameT (some zo) = .ok n) (habs : isAbs n = true)
-    (hl : LineOK nameT ttlT clsT tyT zo zo n ttl ty)
+    (hco : r.currentOrigin = some co) (hzo : r.zoneOrigin = some zo)
+    (hname : fromText nameT (some co) = .ok n) (habs : isAbs n = true)
+    (hl : LineOK nameT ttlT clsT tyT co zo n ttl ty)
     (hm : ownerInZone r.relativize n zo = .ok m)
-    (hline : RdataReads ty (32 :: (rdT ++ [10])) rd comment (some zo) r.relativize (some zo) r.gfix)
-    (hfresh : rdataFromText ty (TState.init rdT) (some zo) r.relativize (some zo) r.gfix = .ok (rd, comment, s')) :
+    (hline : RdataReads ty (32 :: (rdT ++ [10])) rd comment (some co) r.relativize (some zo) r.gfix)
+    (hfresh : rdataFromText ty (TState.init rdT) (some co) r.relativize (some zo) r.gfix = .ok (rd, comment, s')) :
     (genItem ttl ty (nameT, rdT) r).map (·.1) =
     (lineStep { r with tok := after 0 false (nameT ++ (32 :: (ttlT ++ (32 :: (clsT ++ (32 :: (tyT ++ ((32 :: (rdT ++ [10])) ++ rest)))))))) }).map
       (fun x => evEntry x.1) := by
-  have _ := asName_of_fromText nameT zo n hname habs
-  rw [genItem_record r nameT rdT zo n m ttl ty rd comment s' hco hzo hname hl.in_zone hm hfresh]
+  have _ := asName_of_fromText nameT co n hname habs
+  rw [genItem_record r nameT rdT co zo n m ttl ty rd comment s' hco hzo hname hl.in_zone hm hfresh]
   rw [lineStep_record
     { r with tok := after 0 false (nameT ++ (32 :: (ttlT ++ (32 :: (clsT ++ (32 :: (tyT ++ ((32 :: (rdT ++ [10])) ++ rest)))))))) }
-    nameT ttlT clsT tyT (32 :: (rdT ++ [10])) rest zo zo n m ttl ty rd comment hco hzo rfl hl hm hline]
+    nameT ttlT clsT tyT (32 :: (rdT ++ [10])) rest co zo n m ttl ty rd comment hco hzo rfl hl hm hline]
   rfl
 
 /-- the loop: when every index yields a record, the `$GENERATE` loop is the sequence of those records -/
